@@ -13,6 +13,10 @@ use crate::explore::{self, choose, Bounds, Ctl, Exec, Kind, Point};
 pub const TICK: Duration = Duration::from_millis(10);
 
 thread_local! {
+	/// spawn ordinals of tasks that only run when the driver says so (slow consumers)
+	static SLOW: RefCell<std::collections::BTreeSet<u64>> = const { RefCell::new(std::collections::BTreeSet::new()) };
+	/// slow task the driver lets run in the next scheduling round
+	static FORCE: Cell<Option<u64>> = const { Cell::new(None) };
 	static NOW: Cell<u64> = const { Cell::new(0) };
 	static SELECT_FILTER: RefCell<Option<Box<dyn Fn(usize) -> bool>>> = const { RefCell::new(None) };
 	static POLLS: Cell<u64> = const { Cell::new(0) };
@@ -43,6 +47,40 @@ pub async fn tick() {
 
 pub struct Livelock;
 
+/// Mark the task with this spawn ordinal as slow: from now on it is polled only through
+/// `run_slow`. Models a consumer / handler that falls behind.
+pub fn mark_slow(ordinal: u64) {
+	SLOW.with(|s| s.borrow_mut().insert(ordinal));
+}
+
+pub fn clear_slow() {
+	SLOW.with(|s| s.borrow_mut().clear());
+}
+
+pub fn is_slow(ordinal: u64) -> bool {
+	SLOW.with(|s| s.borrow().contains(&ordinal))
+}
+
+/// Slow tasks that are currently runnable.
+pub fn slow_runnable() -> Vec<u64> {
+	let r = tokio::verif::runnable_ordinals();
+	SLOW.with(|s| r.into_iter().filter(|o| s.borrow().contains(o)).collect())
+}
+
+/// Number of runnable tasks that are not slow.
+pub fn runnable_fast() -> usize {
+	let r = tokio::verif::runnable_ordinals();
+	SLOW.with(|s| r.iter().filter(|o| !s.borrow().contains(o)).count())
+}
+
+/// Let one slow task be polled once.
+pub async fn run_slow(ordinal: u64) {
+	FORCE.with(|f| f.set(Some(ordinal)));
+	tokio::task::yield_now().await;
+	FORCE.with(|f| f.set(None));
+	POLLS.with(|p| p.set(p.get() + 1));
+}
+
 thread_local! {
 	static PANICS: RefCell<Vec<String>> = const { RefCell::new(Vec::new()) };
 }
@@ -72,7 +110,7 @@ pub fn take_panics() -> Vec<String> {
 /// `Ok(false)` in that case and `Ok(true)` on quiescence.
 pub async fn settle(preempt: bool, mut after_poll: impl FnMut()) -> Result<bool, Livelock> {
 	let mut guard = 0u32;
-	while tokio::verif::runnable() > 0 {
+	while runnable_fast() > 0 {
 		if preempt && choose(Kind::Preempt, 2) == 1 {
 			return Ok(false);
 		}
@@ -90,7 +128,7 @@ pub async fn settle(preempt: bool, mut after_poll: impl FnMut()) -> Result<bool,
 /// Default-schedule quiescence without recording any point (used in drain phases).
 pub async fn settle_quiet() -> Result<(), Livelock> {
 	let mut guard = 0u32;
-	while tokio::verif::runnable() > 0 {
+	while runnable_fast() > 0 {
 		tokio::task::yield_now().await;
 		POLLS.with(|p| p.set(p.get() + 1));
 		guard += 1;
@@ -120,6 +158,9 @@ where
 	NOW.with(|n| n.set(0));
 	POLLS.with(|n| n.set(0));
 	let _ = take_panics();
+	tokio::verif::reset_spawn_order();
+	SLOW.with(|s| s.borrow_mut().clear());
+	FORCE.with(|f| f.set(None));
 	explore::install(Ctl {
 		bounds,
 		prefix: prefix.to_vec(),
@@ -127,8 +168,23 @@ where
 		divergence: None,
 		strict: true,
 	});
-	tokio::verif::set_chooser(Some(Box::new(|k, n| match k {
-		tokio::verif::Kind::Sched => choose(Kind::Sched, n),
+	tokio::verif::set_chooser(Some(Box::new(|k, n, ords| match k {
+		tokio::verif::Kind::Sched => {
+			if let Some(f) = FORCE.with(Cell::take) {
+				if let Some(i) = ords.iter().position(|o| *o == f) {
+					return i;
+				}
+			}
+			let fast: Vec<usize> = SLOW.with(|s| {
+				let s = s.borrow();
+				(0..n).filter(|i| !s.contains(&ords[*i])).collect()
+			});
+			if fast.is_empty() {
+				// only slow tasks are runnable and the driver did not release one
+				return tokio::verif::DECLINE;
+			}
+			fast[choose(Kind::Sched, fast.len())]
+		}
 		tokio::verif::Kind::Select => {
 			let matters = SELECT_FILTER.with(|f| f.borrow().as_ref().map_or(true, |f| f(n)));
 			if matters {
